@@ -62,28 +62,31 @@ package stream
 //@   results sc, err
 //@   ghostlocal me int
 //@   ghostlocal cidx gmap[int]int
+//@   ghostlocal hi int
 //@   requires s != nil && actions != nil && actions.Request != nil && actions.Response != nil && xlen >= 0
 //@   requires typeis(node, *streamflow.FlowGraphNode) && nd(node) != nil && allocated(nd(node))
 //@   requires typeis(flow, *streamflow.Flow) && flow.(*streamflow.Flow) != nil && flow.(*streamflow.Flow).response != nil && flow.(*streamflow.Flow).flowRep != nil
-//@   requires[response-nodes] forall(k, string, in(k, flow.(*streamflow.Flow).response.nodes) ==> flow.(*streamflow.Flow).response.nodes[k] != nil && allocated(flow.(*streamflow.Flow).response.nodes[k]))
+//@   requires[response-nodes] forall(k, string, in(k, flow.(*streamflow.Flow).response.nodes) ==> flow.(*streamflow.Flow).response.nodes[k] != nil && allocated(flow.(*streamflow.Flow).response.nodes[k]) && flow.(*streamflow.Flow).response.nodes[k].ranked)
 //@   requires forall(n, *streamflow.FlowGraphNode, allocated(n) ==> forall(k, 0, len(n.edges), n.edges[k] != nil))
 //@   allocates ProcessorIO
 //@   modifies now, xn, xo, xp, xlen, xpar, drops, actions.Request.Actions, actions.Response.Actions
-//@   on entry do me = xlen
+//@   on entry do me = xlen; hi = xlen
 //@   on call Execute 1 before do xn[xlen] = nd(node); xp[xlen] = xpar; xlen = xlen + 1
 //@   on call measureProcExecutionTime 1 before do xn[xlen] = nd(node); xp[xlen] = xpar; xlen = xlen + 1
 //@   on call GetActionsType 1 before do xo[me] = procIO.Name
-//@   on call ExecuteFlow 1 before do xpar = me; cidx[idx1] = xlen
-//@   loop 1 modifies now, xn, xo, xp, xlen, xpar, drops, actions.Request.Actions, actions.Response.Actions, cidx
+//@   on call ExecuteFlow 1 before do xpar = me; cidx[idx1] = xlen; hi = xlen
+//@   loop 1 modifies now, xn, xo, xp, xlen, xpar, drops, actions.Request.Actions, actions.Response.Actions, cidx, hi
 //@   loop 1 invariant[own-event-idx] me == old(xlen) && me < xlen
 //@   loop 1 invariant[own-event-node] xn[me] == nd(node)
 //@   loop 1 invariant[own-event-out] xo[me] == procIO.Name
 //@   loop 1 invariant[own-event-parent] xp[me] == old(xpar)
 //@   loop 1 invariant[drops] drops >= old(drops) && (reqT(apiStream) && !ifacenil(procIO.ReqAction) && procIO.ReqAction.IsEarlyReturnType() ==> drops > old(drops))
-//@   loop 1 invariant[hand-over-node] shortCircuitNode == nil || (typeis(shortCircuitNode, *streamflow.FlowGraphNode) && allocated(nd(shortCircuitNode)))
+//@   loop 1 invariant[hand-over-node] shortCircuitNode == nil || (typeis(shortCircuitNode, *streamflow.FlowGraphNode) && allocated(nd(shortCircuitNode)) && nd(shortCircuitNode).ranked)
 //@   loop 1 invariant[prefix-kept] forall(i, 0, me, xn[i] == old(xn)[i] && xo[i] == old(xo)[i] && xp[i] == old(xp)[i])
 //@   loop 1 invariant[on-path] forall(i, me + 1, xlen, me <= xp[i] && xp[i] < i && follows(xn[xp[i]], xo[xp[i]], xn[i]))
 //@   loop 1 invariant[followed] forall(k, 0, idx1, nd(node).edges[k].node != nil && nd(node).edges[k].condition == procIO.Name ==> me < cidx[k] && cidx[k] < xlen && xp[cidx[k]] == me && xn[cidx[k]] == nd(node).edges[k].node)
+//@   loop 1 invariant[latest-child] me <= hi && hi < xlen && forall(k, 0, idx1, nd(node).edges[k].node != nil && nd(node).edges[k].condition == procIO.Name ==> cidx[k] <= hi)
+//@   loop 1 hint[new-child-is-last] matchE(nd(node), idx1 - 1, procIO.Name) ==> forall(k2, 0, idx1 - 1, matchE(nd(node), k2, procIO.Name) ==> cidx[k2] < cidx[idx1 - 1])
 //@   loop 1 invariant[in-order] forall(k, 0, idx1, forall(k2, 0, k, nd(node).edges[k].node != nil && nd(node).edges[k].condition == procIO.Name && nd(node).edges[k2].node != nil && nd(node).edges[k2].condition == procIO.Name ==> cidx[k2] < cidx[k]))
 //@   ensures[once-first] xlen > old(xlen) && xn[old(xlen)] == nd(node) && xp[old(xlen)] == old(xpar)
 //@   ensures[prefix-kept] forall(i, 0, old(xlen), xn[i] == old(xn)[i] && xo[i] == old(xo)[i] && xp[i] == old(xp)[i])
@@ -92,7 +95,7 @@ package stream
 //@   ensures[followed] err == nil && walks(apiStream, procIO) ==> forall(k, 0, len(nd(node).edges), matchE(nd(node), k, procIO.Name) ==> old(xlen) < cidx[k] && cidx[k] < xlen && xp[cidx[k]] == old(xlen) && xn[cidx[k]] == nd(node).edges[k].node)
 //@   ensures[in-order] err == nil && walks(apiStream, procIO) ==> forall(k, 0, len(nd(node).edges), forall(k2, 0, k, matchE(nd(node), k, procIO.Name) && matchE(nd(node), k2, procIO.Name) ==> cidx[k2] < cidx[k]))
 //@   ensures[early-response] err == nil && early(apiStream, procIO) ==> in(nd(node).processorKey, flow.(*streamflow.Flow).response.nodes) && sc == box(flow.(*streamflow.Flow).response.nodes[nd(node).processorKey])
-//@   ensures[hand-over-node] sc == nil || (typeis(sc, *streamflow.FlowGraphNode) && allocated(nd(sc)))
+//@   ensures[hand-over-node] sc == nil || (typeis(sc, *streamflow.FlowGraphNode) && allocated(nd(sc)) && nd(sc).ranked)
 //@   ensures[no-hand-over] err == nil && !early(apiStream, procIO) && !walks(apiStream, procIO) ==> sc == nil
 //@   ensures[short-circuit-action] err == nil && scReq(apiStream, procIO) ==> len(actions.Request.Actions) == old(len(actions.Request.Actions)) + 1 && actions.Request.Actions[old(len(actions.Request.Actions))] == procIO.ShortCircuit.ReqAction
 //@   ensures[short-circuit-action-res] err == nil && scRes(apiStream, procIO) ==> len(actions.Response.Actions) == old(len(actions.Response.Actions)) + 1 && actions.Response.Actions[old(len(actions.Response.Actions))] == procIO.ShortCircuit.RespAction
